@@ -758,7 +758,7 @@ func ruleParentChain(c *Ctx, rule string) {
 			args := call.Common().Args
 			same := len(args) == len(ni.Params)-1
 			for i := range args {
-				if same && args[i] != ssa.Value(ni.Params[i+1]) {
+				if same && !paramCopy(args[i], ni.Params[i+1]) {
 					same = false
 				}
 			}
